@@ -241,9 +241,7 @@ def replay(ctx, payload):
     if c.get("text") is None:
         print("non-text case: see harness/props/c14.py NON_TEXT")
         return False
-    call = L.Call(c["text"], default=datetime.datetime.fromisoformat(c["default"]) if c.get("default") else datetime.datetime(2003, 9, 25),
-                  dayfirst=c.get("dayfirst"), yearfirst=c.get("yearfirst"), fuzzy=bool(c.get("fuzzy")),
-                  fwt=bool(c.get("fuzzy_with_tokens")), ignoretz=bool(c.get("ignoretz")), via=c.get("via", "str"))
+    call = L.call_from_case(c)
     prev = L.set_tz(c.get("TZ") or "UTC")
     try:
         a1, _, _ = L.run_impl(call)
